@@ -123,8 +123,17 @@ pub fn build_path(f: &Facts, path: PathSel, noise: &JaxNoise) -> Result<Ontology
             let o = via_binary(f, 3)?;
             roundtrip(&o)
         }
-        PathSel::Jax => SCRATCH.with(|s| via_jax(&expected_facts(f, path), noise, false, s)),
-        PathSel::JaxT => SCRATCH.with(|s| via_jax(&expected_facts(f, path), noise, true, s)),
+        PathSel::Jax | PathSel::JaxT => {
+            // properties that do not generate the spelling of the files themselves get one derived from the facts
+            let derived;
+            let noise = if *noise == JaxNoise::default() {
+                derived = derived_noise(f);
+                &derived
+            } else {
+                noise
+            };
+            SCRATCH.with(|s| via_jax(&expected_facts(f, path), noise, path == PathSel::JaxT, s))
+        }
         PathSel::Sub { root, leaves } => {
             let src = via_binary(f, 3)?;
             let m = Model::new(f);
@@ -176,6 +185,37 @@ pub fn restricted_facts(f: &Facts, kept: &std::collections::BTreeSet<u32>) -> Fa
     exp
 }
 
+/// A spelling of the four files that is a function of the facts: half of the fact sets are written plainly, the
+/// others with variations that leave the described ontology unchanged (tag order inside stanzas, other tags
+/// before / after the name and between is_a lines, trailing modifiers on is_a lines, explicit `is_obsolete: false`,
+/// [Typedef] stanzas, extra columns, no newline after the last line).
+pub fn derived_noise(f: &Facts) -> JaxNoise {
+    let mut h = Fnv::new();
+    h.u64(f.terms.len() as u64);
+    h.u64(f.edges.len() as u64);
+    for t in f.terms.iter().take(4) {
+        h.u64(u64::from(t.id));
+    }
+    for k in 0..3 {
+        h.u64(f.recs[k].len() as u64);
+    }
+    let x = h.finish();
+    if x & 1 == 0 {
+        return JaxNoise::default();
+    }
+    let b = |i: u32| (x >> i) as u8;
+    JaxNoise {
+        tag_order: b(8) % 4,
+        extra_tags: if b(16) % 2 == 0 { vec![] } else { vec![b(20), b(28), b(36)] },
+        isa_modifier: b(44) % 2 == 0,
+        explicit_false: b(45) % 2 == 0,
+        typedefs: b(46) % 3,
+        extra_cols: b(48) % 2 == 0,
+        eof: b(49) % 2,
+        ..JaxNoise::default()
+    }
+}
+
 pub fn noise_strategy() -> impl Strategy<Value = JaxNoise> {
     (
         0u8..2,
@@ -193,6 +233,7 @@ pub fn noise_strategy() -> impl Strategy<Value = JaxNoise> {
             hpoa_head: if comments % 2 == 0 { 0 } else { 1 + (typedefs + gene_header) % 3 },
             eof: if extra_tags.len() % 2 == 0 { 0 } else { 1 + (extra_tags[0] % 2) },
             long_lines: extra_tags.len() == 5 || (extra_tags.len() == 3 && extra_tags[0] % 2 == 0),
+            tag_order: if extra_tags.len() % 3 == 1 { 1 + extra_tags[0] % 3 } else { 0 },
             gene_header,
             extra_tags,
             typedefs,
